@@ -627,12 +627,22 @@ func registerStubs(e *Engine) {
 
 // zeroOrOpaque returns zero results, but a non-nil opaque pointer for pointer results
 // (so that later method calls on e.g. a *zap.Logger do not look like nil dereferences).
-func zeroOrOpaque(fn *ssa.Function) value {
-	res := fn.Signature.Results()
+func zeroOrOpaque(fn *ssa.Function) value { return envResults(fn.Signature) }
+
+// envObjType is the dynamic type of environment objects (tracers, spans,
+// providers, ...) returned through interfaces by logging/metrics/tracing
+// stubs: every method call on them is again an environment no-op.
+var envObjType = newEngType("envObject", types.NewPointer(types.Typ[types.Int]), map[string]engMethod{})
+
+func envResults(sig *types.Signature) value {
+	res := sig.Results()
 	mk := func(t types.Type) value {
 		if _, ok := t.Underlying().(*types.Pointer); ok {
 			v := value(&opaque{kind: "env:" + t.String()})
 			return &v
+		}
+		if it, ok := t.Underlying().(*types.Interface); ok && !isErrorIface(it) && it.NumMethods() > 0 {
+			return iface{t: envObjType.named, v: &opaque{kind: "env:" + t.String()}}
 		}
 		return zero(t)
 	}
